@@ -52,20 +52,27 @@ def _snapshot(g, n, scale):
     import random as _r
     rr = _r.Random(sum(k) * 31 + n)
     sub = [rr.randrange(2 ** n) for _ in range(rr.randint(1, 2 ** n))]
-    cl = [Coalition(c) for c in sub]
+    cl_list = [Coalition(c) for c in sub]
+
+    def cl_form():
+        """the coalitions in one of the argument forms the signatures allow (Iterable): list, tuple, iterator, generator, map (seed C17-e)"""
+        f = rr.randrange(5)
+        return (cl_list if f == 0 else tuple(cl_list) if f == 1 else iter(cl_list) if f == 2 else (c for c in cl_list) if f == 3
+                else map(Coalition, sub))
+    cl = cl_list
     try:
-        ok = (D.exact_arr(g.get_lower_bounds(cl), scale) == [lo[c] for c in sub]
-              and D.exact_arr(g.get_upper_bounds(iter(cl)), scale) == [up[c] for c in sub]
-              and [int(b) for b in g.are_values_known(cl)] == [k[c] for c in sub]
-              and D.exact_arr(np.asarray(g.get_intervals(cl))[:, 0], scale) == [lo[c] for c in sub]
-              and D.exact_arr(np.asarray(g.get_intervals(cl))[:, 1], scale) == [up[c] for c in sub])
-        kvl = g.get_known_values(cl)
+        ok = (D.exact_arr(g.get_lower_bounds(cl_form()), scale) == [lo[c] for c in sub]
+              and D.exact_arr(g.get_upper_bounds(cl_form()), scale) == [up[c] for c in sub]
+              and [int(b) for b in g.are_values_known(cl_form())] == [k[c] for c in sub]
+              and D.exact_arr(np.asarray(g.get_intervals(cl_form()))[:, 0], scale) == [lo[c] for c in sub]
+              and D.exact_arr(np.asarray(g.get_intervals(cl_form()))[:, 1], scale) == [up[c] for c in sub])
+        kvl = g.get_known_values(cl_form())
         ok = ok and all((math.isnan(float(x)) and not k[c]) or (k[c] and D.exact_int(x, scale) == lo[c]) for x, c in zip(kvl, sub))
         if all(k[c] for c in sub):
-            ok = ok and D.exact_arr(g.get_values(cl), scale) == [lo[c] for c in sub]
+            ok = ok and D.exact_arr(g.get_values(cl_form()), scale) == [lo[c] for c in sub]
         else:
             try:
-                g.get_values(cl)
+                g.get_values(cl_form())
                 ok = False                      # a value of an unknown coalition was returned
             except ValueError:
                 pass
